@@ -104,12 +104,13 @@ PROPS["C10"] = dict(
                 "LengthOfFractionalPart are compared directly. Exhaustive for the bounded alphabet, sampled beyond."),
     level_note="trusted: ref.ParseDecimal + math/big; `1.0`-style numerals against integer examples and integer-vs-float equality in enum/const are not judged (statement unclear)",
     rule=("pairs (rule parameter M without exponent, document numeral N): all numerals <=3/4 chars x all, all <=5/7 chars x 25 pivots x {min,max,exclusiveMinimum,exclusiveMaximum,enum,const}, integer "
-          "example, additionalProperties: integer, precision 1-3; random: mantissa <=60 digits, |exp|<=400, N derived from M by exponent shift / zero padding / e0 / sign of zero / last-digit neighbour / sign flip / fresh digits of the same integer length; parameters at word-size and power-of-ten boundaries. "
+          "example, additionalProperties: integer, precision 1-3; random: mantissa <=60 digits, |exp|<=400, N derived from M by exponent shift / zero padding / e0 / sign of zero / last-digit neighbour / sign flip / fresh digits of the same integer length; parameters at word-size and power-of-ten boundaries; document numerals with exponents beyond +-100000 around 2^32, 2^63, 2^64, 2^65, 2^128 and 10^20 (false accepts only: the library's deliberate exponent limit makes it reject them all, which is a recorded finding). "
           "non-trivial = M and N spelled differently and equal or within 1 of each other (or sign-mirrored); for integer/precision: N has a point or exponent; distinct by (rule, M, N)"),
     assumptions=["reference decimal parser is right (it is checked against the RFC grammar recogniser on every token)"],
     jobs=[
         job("exhaustive", "^TestExhaustivePairs$", (4, 16), (1, 1), (600, 3000)),
         job("random", "^TestRandomPairs$", (2, 16), (3000, 40000), (600, 3000)),
+        job("huge-exponents", "^TestHugeExponents$", (1, 4), (1500, 20000), (600, 3000)),
         job("unit-exhaustive", "^TestExhaustiveUnit$", (2, 16), (1, 1), (600, 3000), pkg="c10h"),
         job("unit-random", "^TestRandomUnit$", (2, 8), (10000, 100000), (600, 3000), pkg="c10h"),
     ],
